@@ -42,6 +42,7 @@ fn op_name(op: &Op) -> String {
         Op::Status => "Status".into(),
         Op::DropHandle => "DropHandle".into(),
         Op::Nop => "Nop".into(),
+        Op::GetUnpolled { .. } => "Get!unpolled".into(),
         Op::Sibling { kind } => format!("Sibling({})", kind % 2),
     }
 }
